@@ -24,8 +24,22 @@ func newFrame(fn *ssa.Function, depth int, prefix string) *frame {
 		in: map[*ssa.BasicBlock][]edge{}, depth: depth, prefix: prefix, names: map[string]*ssa.Alloc{}}
 	// named allocs: name, name#2, ...
 	cnt := map[string]int{}
+	fr.namedVals = map[string]ssa.Value{}
 	for _, b := range fn.Blocks {
+		var lastLen ssa.Value
 		for _, ins := range b.Instrs {
+			if c, ok := ins.(*ssa.Call); ok {
+				if bi, ok := c.Call.Value.(*ssa.Builtin); ok && bi.Name() == "len" {
+					lastLen = c
+				}
+			}
+			if a, ok := ins.(*ssa.Alloc); ok && a.Comment == "rangeindex" && lastLen != nil {
+				n := "rangelen"
+				if k := cnt["rangeindex"]; k > 0 {
+					n = fmt.Sprintf("rangelen#%d", k+1)
+				}
+				fr.namedVals[n] = lastLen
+			}
 			if a, ok := ins.(*ssa.Alloc); ok && a.Comment != "" {
 				cnt[a.Comment]++
 				n := a.Comment
@@ -306,8 +320,15 @@ func (vc *FnVC) enterBlock(fr *frame, b *ssa.BasicBlock) *state {
 	// loop head: establish invariants on entry
 	tagsOf := func(c *Clause) []string { return vc.tagsFor(fr, c) }
 	for _, c := range li.invs {
-		t := vc.evalBool(fr, st, vc.old, c.E, nil)
-		vc.oblige("inv-init", fmt.Sprintf("loop%d:%s", li.ord, c.Src), st.reach, t, tagsOf(c), fmt.Sprintf("%s:%d", c.File, c.Line))
+		parts := splitConj(c.E, vc.eng.db, 0)
+		for k, pe := range parts {
+			t := vc.evalBool(fr, st, vc.old, pe, nil)
+			desc := fmt.Sprintf("loop%d:%s", li.ord, c.Src)
+			if len(parts) > 1 {
+				desc = fmt.Sprintf("loop%d:%s/%d", li.ord, shorten(c.Src, 48), k+1)
+			}
+			vc.oblige("inv-init", desc, st.reach, t, tagsOf(c), fmt.Sprintf("%s:%d", c.File, c.Line))
+		}
 	}
 	// havoc
 	hs := st.clone()
@@ -384,8 +405,15 @@ func (vc *FnVC) addEdge(fr *frame, from, to *ssa.BasicBlock, cond string, st *st
 		bst := st.clone()
 		bst.reach = cond
 		for _, c := range li.invs {
-			t := vc.evalBool(fr, bst, vc.old, c.E, nil)
-			vc.oblige("inv-preserved", fmt.Sprintf("loop%d:%s", li.ord, c.Src), cond, t, vc.tagsFor(fr, c), fmt.Sprintf("%s:%d", c.File, c.Line))
+			parts := splitConj(c.E, vc.eng.db, 0)
+			for k, pe := range parts {
+				t := vc.evalBool(fr, bst, vc.old, pe, nil)
+				desc := fmt.Sprintf("loop%d:%s", li.ord, c.Src)
+				if len(parts) > 1 {
+					desc = fmt.Sprintf("loop%d:%s/%d", li.ord, shorten(c.Src, 48), k+1)
+				}
+				vc.oblige("inv-preserved", desc, cond, t, vc.tagsFor(fr, c), fmt.Sprintf("%s:%d", c.File, c.Line))
+			}
 		}
 		for i, c := range li.decs {
 			v := vc.evalInt(fr, bst, vc.old, c.E, nil)
@@ -483,7 +511,7 @@ func (vc *FnVC) step(fr *frame, st *state, b *ssa.BasicBlock, ins ssa.Instructio
 		cp := fr.get(vc, x.Cap)
 		et := x.Type().Underlying().(*types.Slice).Elem()
 		vc.oblige("makeslice", "len-cap", st.reach, fmt.Sprintf("(and (<= 0 %s) (<= %s %s))", ln.t, ln.t, cp.t), vc.safetyTags(fr), vc.posOf(x))
-		fr.set(vc, x, fmt.Sprintf("(mk-slice ((as const (Array Int %s)) %s) 0 %s %s)", S.SortOf(et), S.ZeroOf(et), ln.t, cp.t))
+		fr.set(vc, x, fmt.Sprintf("(mk-slice ((as const (Array Int %s)) %s) %s %s)", S.SortOf(et), S.ZeroOf(et), ln.t, cp.t))
 	case *ssa.MakeInterface:
 		v := fr.get(vc, x.X)
 		fr.set(vc, x, vc.makeIface(fr, st, v, x.X.Type()))
@@ -823,6 +851,15 @@ func (vc *FnVC) binop(fr *frame, st *state, x *ssa.BinOp) {
 
 // equal builds Go's == for two terms of type t.
 func (vc *FnVC) equal(t types.Type, a, b string) string {
+	if _, isI := t.Underlying().(*types.Interface); isI {
+		// comparison with the nil interface: decided by the dynamic type alone
+		if a == "(mk-iface 0 0)" {
+			return fmt.Sprintf("(= (i.tid %s) 0)", b)
+		}
+		if b == "(mk-iface 0 0)" {
+			return fmt.Sprintf("(= (i.tid %s) 0)", a)
+		}
+	}
 	return fmt.Sprintf("(= %s %s)", a, b)
 }
 
@@ -839,11 +876,11 @@ func (vc *FnVC) indexAddr(fr *frame, st *state, x *ssa.IndexAddr) {
 				idx = fmt.Sprintf("(+ %s %s)", off, i.t)
 			}
 			// loads use the slice VALUE at the time it was read; stores go to the location it came from
-			fr.vals[x] = val{lv: &lval{anon: fmt.Sprintf("(select (s.arr %s) (+ (s.off %s) %s))", xv.t, xv.t, i.t), rtyp: et, typ: et}, typ: x.Type()}
+			fr.vals[x] = val{lv: &lval{anon: fmt.Sprintf("(select (s.arr %s) %s)", xv.t, i.t), rtyp: et, typ: et}, typ: x.Type()}
 			fr.prov[x] = p.extend(pathElem{field: -1, idx: idx, typ: et})
 			return
 		}
-		fr.vals[x] = val{lv: &lval{anon: fmt.Sprintf("(select (s.arr %s) (+ (s.off %s) %s))", xv.t, xv.t, i.t), rtyp: et, typ: et}, typ: x.Type()}
+		fr.vals[x] = val{lv: &lval{anon: fmt.Sprintf("(select (s.arr %s) %s)", xv.t, i.t), rtyp: et, typ: et}, typ: x.Type()}
 	case *types.Pointer: // pointer to array
 		arr := u.Elem().Underlying().(*types.Array)
 		vc.nilCheck(fr, st, xv, "index", x)
@@ -880,7 +917,7 @@ func (vc *FnVC) sliceOp(fr *frame, st *state, x *ssa.Slice) {
 			mx = fmt.Sprintf("(s.cap %s)", xv.t)
 			vc.oblige("slice", vc.descOf(x.X), st.reach, fmt.Sprintf("(and (<= 0 %s) (<= %s %s) (<= %s (s.cap %s)))", lo, lo, hi, hi, xv.t), tags, vc.posOf(x))
 		}
-		fr.set(vc, x, fmt.Sprintf("(mk-slice (s.arr %s) (+ (s.off %s) %s) (- %s %s) (- %s %s))", xv.t, xv.t, lo, hi, lo, mx, lo))
+		fr.set(vc, x, vc.subSlice(xv.t, S.SortOf(x.Type()), lo, hi, mx))
 		if p := fr.prov[x.X]; p != nil {
 			fr.prov[x] = p
 			off := lo
@@ -907,7 +944,7 @@ func (vc *FnVC) sliceOp(fr *frame, st *state, x *ssa.Slice) {
 		}
 		vc.oblige("slice", vc.descOf(x.X), st.reach, fmt.Sprintf("(and (<= 0 %s) (<= %s %s) (<= %s %d))", lo, lo, hi, hi, arr.Len()), tags, vc.posOf(x))
 		a := vc.loadLV(st, vc.deref(xv))
-		fr.set(vc, x, fmt.Sprintf("(mk-slice %s %s (- %s %s) (- %d %s))", a, lo, hi, lo, arr.Len(), lo))
+		fr.set(vc, x, vc.subSlice(fmt.Sprintf("(mk-slice %s %d %d)", a, arr.Len(), arr.Len()), S.SortOf(x.Type()), lo, hi, fmt.Sprint(arr.Len())))
 	default:
 		vc.unsupported("Slice on %s", x.X.Type())
 		fr.set(vc, x, vc.freshConst("slice", S.SortOf(x.Type())))
@@ -990,7 +1027,7 @@ func (vc *FnVC) convert(fr *frame, st *state, x *ssa.Convert) {
 	case isByteSlice(to) && isStringType(from):
 		vc.eng.needBridge = true
 		r := fr.set(vc, x, fmt.Sprintf("(str2bytes %s)", v.t))
-		vc.assume("true", fmt.Sprintf("(and (= (s.len %s) (str.len %s)) (= (s.off %s) 0) (>= (s.cap %s) (s.len %s)))", r.t, v.t, r.t, r.t, r.t))
+		vc.assume("true", fmt.Sprintf("(and (= (s.len %s) (str.len %s)) (>= (s.cap %s) (s.len %s)))", r.t, v.t, r.t, r.t))
 	default:
 		if S.SortOf(from) == S.SortOf(to) {
 			fr.set(vc, x, v.t)
